@@ -790,16 +790,16 @@ func observe(tier string, seed int64, outPath string, reps int, workers int) {
 	}
 
 	out := struct {
-		Tier         string     `json:"tier"`
-		Seed         int64      `json:"seed"`
-		NStripes     int        `json:"nstripes"`
-		Groups       [][3]int   `json:"groups"`
-		Forms        int        `json:"forms"`
-		Configs      int        `json:"configs"`
-		Observations int        `json:"observations"`
-		Inconclusive int        `json:"inconclusive_expiry_configs"`
-		ClockRounds  int        `json:"clock_rounds"`
-		Programmes   []*obsOut  `json:"programmes"`
+		Tier         string    `json:"tier"`
+		Seed         int64     `json:"seed"`
+		NStripes     int       `json:"nstripes"`
+		Groups       [][3]int  `json:"groups"`
+		Forms        int       `json:"forms"`
+		Configs      int       `json:"configs"`
+		Observations int       `json:"observations"`
+		Inconclusive int       `json:"inconclusive_expiry_configs"`
+		ClockRounds  int       `json:"clock_rounds"`
+		Programmes   []*obsOut `json:"programmes"`
 	}{tier, seed, nStripes, groups, len(fs), nConfigs, total, inconclusive, rounds, nil}
 	for _, k := range order {
 		out.Programmes = append(out.Programmes, results[k])
